@@ -789,6 +789,17 @@ func (env *specEnv) call(n *SCall) (TV, error) {
 			return TV{}, fmt.Errorf("containsByte: second argument must be a one-byte string literal")
 		}
 		return TV{containsByteFormula(env.view(a).T, int(lit.V[0]), vc), "Bool", nil}, nil
+	case "snapshot":
+		// snapshot("callee#k", e): the value e had right after that call site last executed in this invocation
+		site, ok := n.Args[0].(*SStr)
+		if !ok || len(n.Args) != 2 {
+			return TV{}, fmt.Errorf("snapshot: want (\"callee#k\", expression)")
+		}
+		cur, err := env.Term(n.Args[1]) // for the sort and type only
+		if err != nil {
+			return TV{}, err
+		}
+		return TV{env.h(snapKey(site.V, n.Args[1].String(), cur.Sort)), cur.Sort, cur.Ty}, nil
 	case "lastresult":
 		// lastresult("callee#k"): the value that call site returned the last time it executed in this invocation
 		ts, ok := n.Args[0].(*SStr)
